@@ -124,6 +124,28 @@ Definition quoted_ok (d : document) (t : tmapdef) : bool :=
   else plain_tm t.
 Definition quoted_doc (d : document) : bool := forallb (quoted_ok d) d && nodupb (map t_id d).
 
+Definition rule_names_of (rl : rule) : list ustr :=
+  names (segs_of (r_sk rl) (r_sv rl)) ++ names (segs_of (r_pk rl) (r_pv rl)) ++ names (segs_of (r_ok rl) (r_ov rl))
+  ++ names (segs_of (r_ldk rl) (r_ldv rl)) ++ names (segs_of (r_gk rl) (r_gv rl)).
+(* a rule whose subject quotes the (simple) rule b of the table *)
+Definition quoting_ruleb (rules : list rule) (rl : rule) : bool :=
+  mkind_eqb (r_sk rl) KQuoted && (match r_sjoin rl with [] => true | _ => false end) && (match r_ojoin rl with [] => true | _ => false end)
+  && pos_okb (r_pk rl) (r_pv rl) TIri && pos_okb (r_ok rl) (r_ov rl) (r_ott rl)
+  && (match r_ld rl with LDNone => mkind_eqb (r_ldk rl) KNone && ueqb (r_ldv rl) [] | _ => pos_okb (r_ldk rl) (r_ldv rl) TNone end)
+  && (if is_plain (r_gk rl) then pos_okb (r_gk rl) (r_gv rl) TIri && (negb (ueqb (r_gv rl) Tables.c_rml_default_graph) || mkind_eqb (r_gk rl) KConst)
+      else mkind_eqb (r_gk rl) KNone && ueqb (r_gv rl) [])
+  && match find_rule rules (r_sv rl) with
+     | Some b => simple_ruleb b && forallb (fun n => negb (ueqb n (keep_subject_col 0))) (rule_names_of b ++ rule_names_of rl)
+     | None => false
+     end.
+(* the end-to-end theorem with quoted subject maps (Proofs/DocQuotedP.v) applies to this document *)
+Definition theorem_applies_quoted (d : document) : bool :=
+  quoted_doc d &&
+  match normalise d with
+  | Ok rules => nodupb (map r_id rules) && forallb (fun rl => simple_ruleb rl || quoting_ruleb rules rl) rules
+  | Err _ => false
+  end.
+
 (* the end-to-end theorem of C01 applies to this document and configuration *)
 Definition theorem_applies (nquads : bool) (d : document) : bool :=
   forallb plain_tm d && match normalise d with Ok rules => forallb simple_ruleb rules | Err _ => false end.
